@@ -45,7 +45,7 @@ def spec_hash(extra=''):
 
 
 def run_config(module, cfg, coverage=False, timeout=3000, workers=16):
-    cache_dir = os.path.join(tlc.WORK, 'mc-cache')
+    cache_dir = os.environ.get('VERIF_MC_CACHE', os.path.join(tlc.VERIF, '.work', 'mc-cache'))
     os.makedirs(cache_dir, exist_ok=True)
     key = spec_hash(module + cfg + str(coverage))
     cf = os.path.join(cache_dir, '%s-%s.json' % (cfg.replace('.cfg', ''), key))
